@@ -120,6 +120,15 @@ theorem undelegate_keepsFlt (e : Env) (s : State) (g : Dec) (del : Addr) (val : 
               exact hs2
 
 
+theorem redelegate_keepsFlt (e : Env) (s : State) (g : Dec) (del : Addr) (src dst : ValAddr) (amt : Int) :
+    keepsFlt s (stakeRedelegate e s g del src dst amt) := by
+  unfold keepsFlt
+  split
+  · rename_i s' hs
+    exact redelegate_keeps fltPart (fun e s s' g g' v a b h => verifySuper_fltS e s s' g g' v a b h)
+      (fun s s' a b x h => send_fltS s s' a b x h) (fun _ _ => rfl) e s g del src dst amt s' hs
+  · trivial
+
 /-! ### every operation -/
 theorem begin_flt (e : Env) (s s' : State) (h : nodeBeginBlock e s = .ok s') : fltPart s' = fltPart s := by
   unfold nodeBeginBlock at h
@@ -208,6 +217,13 @@ theorem C19_fault_records_change_only_by_fault_messages (e : Env) (y : Sys) (op 
   case undelegate c v a =>
     simp only [step, stepBase, stakeStep]
     have := undelegate_keepsFlt e y.st y.global c v a
+    unfold keepsFlt at this
+    split
+    · rename_i s' hs; rw [hs] at this; exact this
+    · rfl
+  case redelegate c v w a =>
+    simp only [step, stepBase, stakeStep]
+    have := redelegate_keepsFlt e y.st y.global c v w a
     unfold keepsFlt at this
     split
     · rename_i s' hs; rw [hs] at this; exact this
